@@ -42,7 +42,7 @@ ASSUMPTIONS = [
     'symbol tables are generated without STT_GNU_IFUNC / STB_GNU_UNIQUE and notes without annobin/stapsdt owners: the clone\'s '
     'description tables have no entries for them',
 ]
-KINDS = {'corpus': (288, 1011, 0), 'compiled': (20, 44, 1), 'descr': (60, 60, 2), 'dwdescr': (40, 40, 1), 'generated': (260, 2600, 4)}
+KINDS = {'corpus': (288, 1011, 0), 'compiled': (24, 52, 1), 'descr': (60, 60, 2), 'dwdescr': (40, 40, 1), 'generated': (260, 2600, 4)}
 FLOOR = {'quick': 150, 'thorough': 600}
 CASE_TIMEOUT = 1200
 OPTIONS = ['-e', '-d', '-s', '-n', '-r', '-x.text', '-p.shstrtab', '-V', '--debug-dump=info', '--debug-dump=decodedline',
@@ -184,8 +184,25 @@ def run_pair(path, option, timeout=600):
     o1, o2 = r1[1], r2[1]
     if option in ('--debug-dump=loc', '--debug-dump=Ranges'):
         o1, o2 = norm_base_lines(o1), norm_base_lines(o2)
+    o1 = apply_text_findings(o1, o2)
     ok, msg = compare_output(o1, o2)
     return ('ok' if ok else 'diff'), msg, n
+
+
+# OPEN findings that are a fixed difference of wording: (finding id, text GNU readelf prints, text the clone prints). While the
+# finding is open the GNU wording is rewritten to the clone's wherever the clone's output lacks the GNU wording, every
+# rewritten output is counted under the finding, and the rest of the output is compared as usual.
+TEXT_FINDINGS = [('push_tls_address_hp_alias', 'DW_OP_GNU_push_tls_address or DW_OP_HP_unknown', 'DW_OP_GNU_push_tls_address')]
+OPEN_NOW = set()            # ids of the open findings of this run (set by run_case)
+APPLIED = []                # findings applied by the comparisons of the current case
+
+
+def apply_text_findings(gnu, clone):
+    for fid, gtext, ctext in TEXT_FINDINGS:
+        if fid in OPEN_NOW and gtext in gnu and gtext not in clone and ctext in clone:
+            gnu = gnu.replace(gtext, ctext)
+            APPLIED.append(fid)
+    return gnu
 
 
 EXTRA_OPTIONS = ['-S', '-l', '-h']      # the parts of -e on their own: they print headings of their own
@@ -261,14 +278,20 @@ GCC_CFG = [(v, o, k) for v in (2, 3, 4, 5) for o in ('-O0', '-O2') for k in ('so
 CLANG_TARGETS = [('x86_64-linux-gnu', True), ('i386-linux-gnu', True), ('arm-linux-gnueabi', True), ('aarch64-linux-gnu', True),
                  ('mips-linux-gnu', False), ('mips64-linux-gnuabi64', False), ('powerpc64le-linux-gnu', False), ('s390x-linux-gnu', False)]
 CLANG_CFG = [(t, regs, v) for t, regs in CLANG_TARGETS for v in (2, 4)] + [(t, regs, 5) for t, regs in CLANG_TARGETS[:4]]
-COMPILED_OPTS = ['-e', '-s', '-r', '-n', '--debug-dump=info', '--debug-dump=decodedline', '--debug-dump=frames',
+COMPILED_OPTS = ['-e', '-s', '-r', '-n', '-d', '-V', '--debug-dump=info', '--debug-dump=decodedline', '--debug-dump=frames',
                  '--debug-dump=frames-interp', '--debug-dump=aranges', '--debug-dump=loc', '--debug-dump=Ranges', '--debug-dump=pubnames']
 
 
 OTHER_CFG = [('g++', 'c.cpp', ['-gdwarf-%d' % v, o, '-fPIC', '-c'], 'g++-dwarf%d%s.o' % (v, o)) for v in (4, 5) for o in ('-O0', '-O2')] + \
     [('clang++', 'c.cpp', ['-gdwarf-4', '-O1', '-c'], 'clang++-dwarf4.o'),
      ('gfortran', 'd.f90', ['-gdwarf-4', '-O0', '-c'], 'gfortran-dwarf4.o'), ('gfortran', 'd.f90', ['-gdwarf-5', '-O1', '-c'], 'gfortran-dwarf5.o'),
-     ('rustc', 'e.rs', ['-g', '--emit=obj'], 'rustc.o')]
+     ('rustc', 'e.rs', ['-g', '--emit=obj'], 'rustc.o'),
+     # fully linked programs: interpreter, dynamic section, symbol versions of libc/libstdc++, PLT relocations, TLS, RELRO, notes
+     ('gcc', ('m.c', 'a.c', 'b.c'), ['-g', '-O1'], 'gcc-exe-pie'), ('gcc', ('m.c', 'a.c', 'b.c'), ['-gdwarf-4', '-O2', '-no-pie'], 'gcc-exe-nopie-dwarf4'),
+     ('g++', ('mm.cpp', 'c.cpp'), ['-g', '-O1'], 'g++-exe'), ('clang', ('m.c', 'a.c', 'b.c'), ['-gdwarf-4', '-O1'], 'clang-exe-dwarf4'),
+     ('gcc', ('m.c', 'a.c', 'b.c'), ['-gdwarf-4', '-fdebug-types-section', '-O1'], 'gcc-exe-types4'),
+     ('gcc', 'a.c', ['-g', '-O1', '-m32', '-c'], 'gcc-m32.o'), ('gcc', 'a.c', ['-g', '-gz', '-O1', '-c'], 'gcc-gz.o'),
+     ('gcc', 'a.c', ['-gdwarf-5', '-gdwarf64', '-O1', '-c'], 'gcc-dwarf64.o')]
 
 
 def run_compiled(idx, rng, sh):
@@ -280,7 +303,7 @@ def run_compiled(idx, rng, sh):
         if cfg[0] == 'other':
             _, tool, srcname, flags, ident = cfg
             out = os.path.join(s.d, ident)
-            cmd = [tool] + flags + ['-o', out, os.path.join(VERIF_DIR, 'corpus', 'src', srcname)]
+            cmd = [tool] + flags + ['-o', out] + [os.path.join(VERIF_DIR, 'corpus', 'src', n) for n in ([srcname] if isinstance(srcname, str) else srcname)]
             if tool == 'gfortran':
                 cmd += ['-J', s.d]
             regs = True
@@ -306,6 +329,9 @@ def run_compiled(idx, rng, sh):
         for option in COMPILED_OPTS:
             if cfg[0] == 'clang' and ver == 5 and option == '--debug-dump=info':
                 sh.skip('clang DWARF 5 uses the index forms (strx/addrx/loclistx/rnglistx), which have no entry in the clone\'s attribute description map')
+                continue
+            if '-gdwarf64' in cmd and option == '--debug-dump=aranges':
+                sh.skip('address-range sets in the 64-bit DWARF format are not supported by the library (C13 is stated for the 32-bit format)')
                 continue
             if not regs and option in ('--debug-dump=loc', '--debug-dump=frames', '--debug-dump=frames-interp'):
                 sh.skip('register names of this machine are outside the clone\'s tables')
@@ -755,7 +781,7 @@ def judge_blocks(sh, table, option, img, s, is_start, min_blocks, gnu_placeholde
     if r1[0] == 0 and r2[0] != 0:
         sh.violation('C18:dwdescr %s: clone fails (exit code %s) where GNU readelf succeeds' % (table, r2[0]), message=r2[2].strip()[-200:])
         return
-    b1 = blocks_by(prepare_lines(r1[1]), is_start)
+    b1 = blocks_by(prepare_lines(apply_text_findings(r1[1], r2[1])), is_start)
     b2 = blocks_by(prepare_lines(r2[1]), is_start)
     if len(b1) < min_blocks:
         sh.violation('C18:dwdescr %s: harness: GNU readelf printed %d of %d entries' % (table, len(b1), min_blocks),
@@ -1237,6 +1263,18 @@ def first_phdr_line(out):
 
 
 def run_case(kind, idx, rng, sh):
+    OPEN_NOW.clear()
+    OPEN_NOW.update(sh.quirks)
+    del APPLIED[:]
+    try:
+        run_case_inner(kind, idx, rng, sh)
+    finally:
+        for fid in APPLIED:
+            sh.known_finding(fid)
+        del APPLIED[:]
+
+
+def run_case_inner(kind, idx, rng, sh):
     if not oracles.have('readelf'):
         sh.skip('GNU readelf missing')
         return
@@ -1269,6 +1307,26 @@ def run_case(kind, idx, rng, sh):
 
 def witness(fid, sh):
     """Committed deterministic witnesses of the open findings that the generated families can hit."""
+    if fid == 'push_tls_address_hp_alias':
+        from ..gen import dwtab
+        cu = dwtab.CU(version=4)
+        cu.add(0x34, [(0x02, 0x18, dwtab.expr_block(b'\x0e' + bytes(8) + b'\xe0'), None)], label='tls_var')
+        u, ab, offs = cu.build()
+        img = oracles.wrap_debug({'.debug_info': u, '.debug_abbrev': ab}, True)
+        with oracles.Scratch() as s:
+            p = s.write('w.elf', img)
+            r1 = oracles.run(['readelf', '--debug-dump=info', p], cwd=REPO)
+            r2 = oracles.run([sys.executable, 'scripts/readelf.py', '--debug-dump=info', p], cwd=REPO)
+        gt, ct = TEXT_FINDINGS[0][1], TEXT_FINDINGS[0][2]
+        if gt not in r1[1]:
+            sh.violation('C18:witness of %s: harness: GNU readelf does not print the expected wording' % fid)
+        elif gt in r2[1]:
+            return                      # repaired: no KNOWN-FINDING line
+        elif ct in r2[1]:
+            sh.known[fid] += 1
+        else:
+            sh.violation('C18:witness of %s fails differently' % fid)
+        return
     if fid != 'name_tables_keyed_by_name':
         return
     # two units, both with a type 'int' and a function 'f': GNU readelf prints 2+2 entries
